@@ -242,7 +242,7 @@ def gen_addition(rng, H):
     def members(lo=1, hi=3):
         return [rng.choice(pool + fresh_nodes) for _ in range(rng.randint(lo, hi))]
     # explicit id choices: an existing one, 0, small ints around the current ids, strings
-    cand = ids[:3] + [0, 1, 2, len(ids), len(ids) + 1, "new", -1, float(len(ids) + 1), 2.0, np.int64(len(ids) + 2), "7"]
+    cand = ids[:3] + [0, 1, 2, len(ids), len(ids) + 1, "new", -1, float(len(ids) + 1), 2.0, np.int64(len(ids) + 2), "7", 10**309, 2**53 + 1]
     kind = rng.random()
     if isinstance(H, xgi.DiHypergraph):
         mk = lambda: (members(1, 2), members(1, 2))
